@@ -274,7 +274,7 @@ func checkC13Quiet(c QuietCase) Outcome {
 // broad input mix of C03/C04 (token sequences incl. open spellings, edits, raw bytes, hostile
 // constants, trees, a few long inputs) under the fd-level capture.
 func TestC13_Quiet(t *testing.T) {
-	rec := NewRecorder("C13", "quiet", "batches of 8 strings from the C03/C04 input mix (token sequences incl. open spellings, single edits of valid expressions, raw bytes, hostile constants, valid trees, unknown ids up to 90 bytes, occasional 2-20 KB inputs) through all three entry points in every argument position, plus nil/empty lists, with file descriptors 1 and 2 redirected to a file; oracle: zero bytes arrive; non-trivial = the batch contains an invalid string; distinct by batch")
+	rec := NewRecorder("C13", "quiet", "batches of 8 strings from the C03/C04 input mix (token sequences incl. open spellings, single edits of valid expressions, raw bytes, hostile constants, valid trees, unknown ids up to 90 bytes, occasional inputs of a few KB) through all three entry points in every argument position, plus nil/empty lists, with file descriptors 1 and 2 redirected to a file; oracle: zero bytes arrive; non-trivial = the batch contains an invalid string; distinct by batch")
 	defer rec.Finish(t)
 	tb := Tbl()
 	rec.Rapid(t, func(rt *rapid.T) {
@@ -290,7 +290,7 @@ func TestC13_Quiet(t *testing.T) {
 				s = tb.DrawUnknown(rt, label) + rapid.SampledFrom([]string{"", "+", "-only", "-or-later", "-only-only", " WITH x", ":"}).Draw(rt, label+"Suf")
 			case 2:
 				fam := rapid.SampledFrom([]string{"and-chain", "nesting", "open-parens", "plus-run", "junk-bytes", "long-id", "spaces"}).Draw(rt, label+"Fam")
-				s, _ = buildSize(SizeCase{Family: fam, N: rapid.IntRange(200, 2000).Draw(rt, label+"N")})
+				s, _ = buildSize(SizeCase{Family: fam, N: rapid.IntRange(50, 400).Draw(rt, label+"N")})
 			default:
 				s = drawEntry(rt, label, false).S.S()
 			}
